@@ -61,6 +61,12 @@ class Injected(Exception):
     """The exception the driver injects into block bodies."""
 
 
+class InjectedBase(BaseException):
+    """The same, but not an Exception (like KeyboardInterrupt / GeneratorExit / SystemExit): the
+    stack must unwind on ANY exit (found by a seeded fault that cleaned up in `except Exception`).
+    The driver alternates the two kinds by the position of the raise in the history."""
+
+
 class DriverError(Exception):
     """The driver itself is confused (malformed history): machinery, not a verdict."""
 
@@ -351,7 +357,7 @@ class Runner:
             if op == "R":
                 self.log("raise")
                 self.after(pos)
-                e = Injected()
+                e = Injected() if pos % 2 == 0 else InjectedBase()
                 e.c17_pos = pos + 1
                 raise e
             if op[0] in "WD":
